@@ -581,57 +581,78 @@ func coreList(m map[uint]bool) []int {
 	return out
 }
 
-// genReference: the value e<which>(arg) of a generated program returns when it is the only thing
-// running on a fresh VM (outside any simulation; cached).
-var genRefCache = map[string]string{}
-var genRefVal = map[string]int64{}
+// genReference: the value e<which>(arg) of a generated program returns when it is the only thing running
+// on a fresh VM. All (function, argument) pairs of one generator seed are computed in one small simulation of
+// their own (default schedule, fake clock) the first time the seed is used; this must happen outside any
+// other simulation, so callers ask before they start theirs.
+type genTable struct {
+	vals map[[2]int]int64
+	errs map[[2]int]string
+	err  string
+}
+
+var genTables = map[uint64]*genTable{}
+
+const genArgs = 13
 
 func genReference(t *testing.T, gseed uint64, src string, which, arg int) (int64, string) {
-	key := fmt.Sprintf("%d/%d/%d", gseed, which, arg)
-	if e, ok := genRefCache[key]; ok {
-		return genRefVal[key], e
-	}
-	if len(genRefCache) > 200000 {
-		genRefCache, genRefVal = map[string]string{}, map[string]int64{}
-	}
-	// one compiled program per generator seed; every reference call runs on a VM of its own
-	prog, err := MustCompile(Single(src + "fn main() {}\n"))
-	if err != nil {
-		genRefCache[key] = "does not compile: " + err.Error()
-		return 0, genRefCache[key]
-	}
-	env := newVMEnv(prog, generousLimits)
-	var outc outcome
-	var val int64
-	func() {
-		defer func() {
-			if r := recover(); r != nil {
-				outc = outcome{Kind: "panic", Msg: fmt.Sprint(r)}
+	tb, ok := genTables[gseed]
+	if !ok {
+		if simrt.Active() != nil {
+			return 0, "infra: reference table requested inside a simulation"
+		}
+		if len(genTables) > 3000 {
+			genTables = map[uint64]*genTable{}
+		}
+		tb = &genTable{vals: map[[2]int]int64{}, errs: map[[2]int]string{}}
+		genTables[gseed] = tb
+		prog, err := MustCompile(Single(src + "fn main() {}\n"))
+		if err != nil {
+			tb.err = "does not compile: " + err.Error()
+		} else {
+			nfn := 0
+			for _, f := range prog.an.Modules["main"].Functions {
+				if strings.HasPrefix(f.Ident.Ident(), "e") {
+					nfn++
+				}
 			}
-		}()
-		env.boot()
-		inv, ierr := c16Invocation(prog, fmt.Sprintf("e%d", which), []value.Value{vInt(int64(arg))})
-		if ierr != nil {
-			outc = outcome{Kind: "panic", Msg: ierr.Error()}
-			return
+			res := simrt.Run(t, simrt.DefaultConfig(), &simrt.ReplaySource{}, func(s *simrt.Sim) {
+				for k := 0; k < nfn; k++ {
+					for a := 0; a < genArgs; a++ {
+						env := newVMEnv(prog, generousLimits)
+						env.boot()
+						inv, ierr := c16Invocation(prog, fmt.Sprintf("e%d", k), []value.Value{vInt(int64(a))})
+						if ierr != nil {
+							tb.errs[[2]int{k, a}] = ierr.Error()
+							continue
+						}
+						r := env.vm.SpawnSync(inv, nil, nil)
+						if r.Exception != nil {
+							tb.errs[[2]int{k, a}] = "reference run: " + classify(r.Exception.CoreNum, &r.Exception.Interrupt).Kind
+							continue
+						}
+						if iv, ok := r.ReturnValue.(value.ValueInt); ok {
+							tb.vals[[2]int{k, a}] = iv.Inner
+						} else {
+							tb.errs[[2]int{k, a}] = "reference call did not return an int"
+						}
+					}
+				}
+			})
+			if res.Outcome != "ok" {
+				tb.err = "reference run: " + res.Outcome + " " + res.Detail
+			}
 		}
-		r := env.vm.SpawnSync(inv, nil, nil)
-		if r.Exception != nil {
-			outc = classify(r.Exception.CoreNum, &r.Exception.Interrupt)
-			return
-		}
-		iv, ok := r.ReturnValue.(value.ValueInt)
-		if !ok {
-			outc = outcome{Kind: "panic", Msg: "reference call did not return an int"}
-			return
-		}
-		val = iv.Inner
-		outc = outcome{Kind: "completed"}
-	}()
-	if outc.Kind != "completed" {
-		genRefCache[key] = "reference run: " + outc.Kind + " " + firstLine(outc.Msg)
-		return 0, genRefCache[key]
 	}
-	genRefCache[key], genRefVal[key] = "", val
-	return val, ""
+	if tb.err != "" {
+		return 0, tb.err
+	}
+	if e, bad := tb.errs[[2]int{which, arg}]; bad {
+		return 0, e
+	}
+	v, ok := tb.vals[[2]int{which, arg}]
+	if !ok {
+		return 0, "reference value missing"
+	}
+	return v, ""
 }
